@@ -282,7 +282,7 @@ func (rc *RecoveryConsumer) recoverSingleEvent(e *kafka.Message) {
 	//TODO: add an integration test that auto-cancels recovery based on invalidoffset, just use a random negative offset if that works
 
 	// if we're done with recovery for this partition, no need to continue
-	if remainingEventsToRecover < 0 {
+	if remainingEventsToRecover <= 0 {
 		log.WithField("partition_id", e.TopicPartition.Partition).WithField("event_offset", e.TopicPartition.Offset).WithField("to_offset", recoveryState.toOffset).Info("recoveryconsumer: recovery is complete for partition")
 		err := rc.tracker.MarkRecoveryComplete(e.TopicPartition.Partition, recoveryState.toOffset)
 		if err != nil {
@@ -296,7 +296,7 @@ func (rc *RecoveryConsumer) recoverSingleEvent(e *kafka.Message) {
 	}
 
 	// check if done with recovery for this partition?
-	if int64(e.TopicPartition.Offset) > recoveryState.fromOffset { // this condition prevents re-recovering duplicate records after refreshing assignments
+	if int64(e.TopicPartition.Offset) >= recoveryState.fromOffset { // a request covers [fromOffset, toOffset): fromOffset is the first record the main consumer skipped
 		// record valid for recovery; enforce rate limit
 		err := rc.rateLimiter.Wait(rc.ctx)
 		if err != nil {
